@@ -36,7 +36,7 @@ var gomaxprocsValues = []int{2, 16}
 
 func planCases(d *mon.Driver) []CaseData {
 	r := d.Rand("cases")
-	perP := d.N(24, 600)
+	perP := d.N(24, 500)
 	var cases []CaseData
 	for _, p := range gomaxprocsValues {
 		for i := 0; i < perP; i++ {
